@@ -39,9 +39,25 @@ pub struct Recipe {
 
 impl Recipe {
     pub fn build(&self) -> (Response, RespSpec) {
+        let (r, s, _) = self.build_staged(None);
+        (r, s)
+    }
+
+    /// Like `build`, but the response is additionally serialised (into a Vec) after the first `mid`
+    /// builder calls and then built further: an application may write a response, change it and
+    /// write it again - each output must be the serialisation of the state at that moment.
+    /// Returns (response, spec, Some((bytes written at mid, reference bytes at mid))).
+    #[allow(clippy::type_complexity)]
+    pub fn build_staged(&self, mid: Option<usize>) -> (Response, RespSpec, Option<(Vec<u8>, Vec<u8>)>) {
         let mut r = Response::new(version_of(self.version), status_of(self.code));
         let mut s = RespSpec::new(self.version, self.code);
-        for op in &self.program {
+        let mut at_mid = None;
+        for (i, op) in self.program.iter().enumerate() {
+            if mid == Some(i) {
+                let mut out = Vec::new();
+                let _ = r.write_all(&mut out);
+                at_mid = Some((out, serialize_response(&s)));
+            }
             match op {
                 BOp::SetBody(b) => {
                     r.set_body(Body::new(b.clone()));
@@ -82,7 +98,7 @@ impl Recipe {
                 }
             }
         }
-        (r, s)
+        (r, s, at_mid)
     }
 
     pub fn to_json(&self) -> J {
@@ -257,6 +273,7 @@ fn wrop_to_json(o: &WrOp) -> J {
         WrOp::Eagain => J::Arr(vec![json::s("eagain")]),
         WrOp::Epipe => J::Arr(vec![json::s("epipe")]),
         WrOp::Reset => J::Arr(vec![json::s("reset")]),
+        WrOp::Errno(e) => J::Arr(vec![json::s("errno"), json::i(*e)]),
         WrOp::Zero => J::Arr(vec![json::s("zero")]),
     }
 }
@@ -273,6 +290,7 @@ fn wrop_from_json(j: &J) -> Result<WrOp, String> {
         "eagain" => WrOp::Eagain,
         "epipe" => WrOp::Epipe,
         "reset" => WrOp::Reset,
+        "errno" => WrOp::Errno(a.get(1).and_then(|x| x.int()).ok_or("errno")? as i32),
         "zero" => WrOp::Zero,
         _ => return Err(format!("unknown write op {}", k)),
     })
@@ -438,7 +456,14 @@ impl Prop for C06 {
                     4 => WrOp::Eintr,
                     5 => WrOp::Eagain,
                     6 => WrOp::Epipe,
-                    7 => WrOp::Reset,
+                    7 => {
+                        if rng.chance(1, 3) {
+                            // the rarer errnos: none of them is an interrupt
+                            WrOp::Errno(*rng.pick(&[libc::ENOBUFS, libc::ENOMEM, libc::EIO, libc::ENOSPC, libc::ETIMEDOUT, libc::ENOTCONN, libc::ECONNABORTED, libc::EBADF, libc::EINVAL, libc::EMSGSIZE, libc::ENETDOWN, libc::EHOSTUNREACH, libc::EDQUOT, libc::EFBIG]))
+                        } else {
+                            WrOp::Reset
+                        }
+                    }
                     _ => WrOp::Zero,
                 }));
             }
@@ -607,6 +632,7 @@ impl Prop for C06 {
                         WrOp::Eagain => 23,
                         WrOp::Epipe => 24,
                         WrOp::Reset => 25,
+                        WrOp::Errno(_) => 27,
                         WrOp::Zero => 26,
                     });
                     sig.u(res.code());
@@ -650,8 +676,9 @@ impl Prop for C06 {
                                 return viol("ok-expected", i, format!("stream accepted {} of {} bytes ({:?}) but try_write returned {:?}", took, offered, op, res), &sig);
                             }
                         }
-                        WrOp::Eagain | WrOp::Epipe | WrOp::Reset | WrOp::Zero => {
+                        WrOp::Eagain | WrOp::Epipe | WrOp::Reset | WrOp::Zero | WrOp::Errno(_) => {
                             st.fault(match op {
+                                WrOp::Errno(_) => "F-werr:other-errno",
                                 WrOp::Eagain => "F-werr:EAGAIN",
                                 WrOp::Epipe => "F-werr:EPIPE",
                                 WrOp::Reset => "F-werr:ECONNRESET",
@@ -882,11 +909,21 @@ impl Prop for C05 {
         let mut failed = false;
         for (i, recipe) in case.recipes.iter().enumerate() {
             st.steps += 1;
-            let built = catch_unwind(AssertUnwindSafe(|| recipe.build()));
-            let (resp, spec) = match built {
+            // every third response with two or more builder calls is also written once half-way
+            // through its program (write, change, write again)
+            let mid = if recipe.program.len() >= 2 && (recipe.program.len() + i) % 3 == 0 { Some(recipe.program.len() / 2) } else { None };
+            let built = catch_unwind(AssertUnwindSafe(|| recipe.build_staged(mid)));
+            let (resp, spec, at_mid) = match built {
                 Ok(x) => x,
                 Err(_) => return viol("panic", i, "builder call panicked".into()),
             };
+            if let Some((got, want)) = at_mid {
+                st.probe("response_written_midway_then_changed");
+                if got != want {
+                    let d = got.iter().zip(want.iter()).position(|(a, b)| a != b).unwrap_or(got.len().min(want.len()));
+                    return viol("midway-bytes-differ", i, format!("response #{} written after {} of its builder calls: first difference from the reference serialiser at offset {}", i, mid.unwrap_or(0), d));
+                }
+            }
             if recipe.program.len() >= 2 || spec.body.as_ref().map(|b| !b.is_empty()).unwrap_or(false) {
                 nontrivial = true;
             }
